@@ -28,7 +28,7 @@ def P(**kw):
 PROPS = {
     "C01": P(
         technique="Lean 4 theorems (induction over byte lists / chunk lists) + differential correspondence model vs implementation",
-        level_text="Proof (round_trip): whatever WriteMessage(t, data) puts on the wire — any payload below 2^40 bytes, any write buffer size, either role — a connection of the opposite role reads as exactly (t, data) through any bufio size ≥ 125, any transport chunking and reads of any size, with no handler invoked and the following bytes untouched; for ANY NUMBER of messages (round_trip_sequence, by induction over the list): the peer reads exactly the list that was sent, each message once, in send order, and with pings/pongs sent in between (round_trip_sequence_with_controls) its handlers see exactly those control frames in send order; ReadFrom / io.Copy into a message writer (message_roundtrip_readFrom, readFrom_reports_all_data): a source handing out its bytes in reads of any sizes and ending with io.EOF, alone or with its last bytes, contributes exactly its bytes, and the count returned is exact. Proof of the data transformations every message goes through, for all inputs: word-at-a-time masking = RFC byte-wise masking for every alignment/key/offset/length, masking involutive and offset-carrying across splits, truncWriter forwards all but the last 4 bytes for every chunking, strict frame decode inverts the writer's encode for every length < 2^63; the constructor always leaves room for a control frame (F4 repair) so a ping/pong of at most 125 bytes through WriteMessage is accepted and is exactly one control frame; the per-message round trip over the writer model (any buffer size, any split of writes, controls in between) and the reader's decoding of any conformant fragmentation are C02.message_roundtrip / C03.read_message. Tie: random write programs and random conformant streams run on the real package and on the compiled model, wire bytes and delivered bytes compared exactly; an independent RFC decoder/inflater judges sent vs delivered.",
+        level_text="Proof (round_trip): whatever WriteMessage(t, data) puts on the wire — any payload below 2^40 bytes, any write buffer size, either role — a connection of the opposite role reads as exactly (t, data) through any bufio size ≥ 125, any transport chunking and reads of any size, with no handler invoked and the following bytes untouched; for ANY NUMBER of messages (round_trip_sequence, by induction over the list): the peer reads exactly the list that was sent, each message once, in send order, and with pings/pongs sent in between (round_trip_sequence_with_controls) its handlers see exactly those control frames in send order; ReadFrom / io.Copy into a message writer (message_roundtrip_readFrom, readFrom_reports_all_data): a source handing out its bytes in reads of any sizes and ending with io.EOF, alone or with its last bytes, contributes exactly its bytes, and the count returned is exact; with a read limit on the receiving side (round_trip_limited, round_trip_sequence_limited) any number of messages, each within the limit, arrive exactly once and in order. Proof of the data transformations every message goes through, for all inputs: word-at-a-time masking = RFC byte-wise masking for every alignment/key/offset/length, masking involutive and offset-carrying across splits, truncWriter forwards all but the last 4 bytes for every chunking, strict frame decode inverts the writer's encode for every length < 2^63; the constructor always leaves room for a control frame (F4 repair) so a ping/pong of at most 125 bytes through WriteMessage is accepted and is exactly one control frame; the per-message round trip over the writer model (any buffer size, any split of writes, controls in between) and the reader's decoding of any conformant fragmentation are C02.message_roundtrip / C03.read_message. Tie: random write programs and random conformant streams run on the real package and on the compiled model, wire bytes and delivered bytes compared exactly; an independent RFC decoder/inflater judges sent vs delivered.",
         level_note="compress/flate and encoding/json are parameters; end-to-end composition through a real connected pair is checked by correspondence (stream pair), the theorem composition is per side.",
         lean=["WS.Props.C01"],
         streams=[("w", 500, 12000), ("rconf", 500, 12000), ("unit", 300, 6000), ("pair", 150, 3000), ("join", 150, 3000), ("glue", 300, 6000)],
@@ -44,7 +44,7 @@ PROPS = {
     ),
     "C03": P(
         technique="Lean 4 refinement proof (bufio model ⊑ byte stream) + reader theorems + differential correspondence with an independent encoder",
-        level_text="Proof that the byte source the reader sees is a plain stream whatever the transport chunking, bufio size and read sizes (take/read/skip laws over the bufio model, all chunkings), and that unmasking is position-correct across reads; message level (read_message, abandon_then_next): from an idle reader a conformant message — any fragmentation incl. empty frames, any masking keys, pings/pongs between fragments, either role, any bufio size ≥ 125, any chunking — is announced with its type and read to exactly its payload with reads of any size, abandonment at any point leaves the next message intact; any number of consecutive messages are read as exactly that list, in order, each once (read_messages, by induction); the request size may change from one Read to the next (read_message_mixed), in particular along whatever capacities the allocator picks for io.ReadAll / ReadMessage (read_message_any_caps); compressed messages (read_compressed_message): what reaches the decompressor is exactly the concatenated payloads, and the same bytes are refused when compression was not negotiated; JoinMessages (join_message, join_two_messages): payload ++ terminator per message for reads of any size. Tie: conformant streams from an independent Go encoder (all length classes, extreme keys, empty fragments, controls anywhere, deflate at several levels) fed through scripted transports with 6 chunkings and read with random programs (ReadMessage, NextReader+reads of 13 sizes, abandon, stale readers) on the real package and the model; every returned byte count compared.",
+        level_text="Proof that the byte source the reader sees is a plain stream whatever the transport chunking, bufio size and read sizes (take/read/skip laws over the bufio model, all chunkings), and that unmasking is position-correct across reads; message level (read_message, abandon_then_next): from an idle reader a conformant message — any fragmentation incl. empty frames, any masking keys, pings/pongs between fragments, either role, any bufio size ≥ 125, any chunking — is announced with its type and read to exactly its payload with reads of any size, abandonment at any point leaves the next message intact; any number of consecutive messages are read as exactly that list, in order, each once (read_messages, by induction); the request size may change from one Read to the next (read_message_mixed), in particular along whatever capacities the allocator picks for io.ReadAll / ReadMessage (read_message_any_caps); for EVERY program over the read API (any_read_program: NextReader and Read(k) in any order, number and sizes, reading past the end, opening the next message at any point) the observed trace is exactly the one the messages dictate — the i-th NextReader opens the i-th message, every Read returns a non-empty piece continuing where the last stopped, end-of-message exactly at the end; compressed messages (read_compressed_message): what reaches the decompressor is exactly the concatenated payloads, and the same bytes are refused when compression was not negotiated; JoinMessages (join_message, join_two_messages, join_messages for ANY NUMBER of messages with or without a read limit): payload ++ terminator per message for reads of any size. Tie: conformant streams from an independent Go encoder (all length classes, extreme keys, empty fragments, controls anywhere, deflate at several levels) fed through scripted transports with 6 chunkings and read with random programs (ReadMessage, NextReader+reads of 13 sizes, abandon, stale readers) on the real package and the model; every returned byte count compared.",
         level_note="compress/flate's inflate and its read sizes are environment (after a compressed read scenarios use whole-message reads); ReadJSON is ReadMessage + encoding/json (environment).",
         lean=["WS.Props.C03"],
         streams=[("rconf", 800, 16000), ("join", 200, 4000), ("zcut", 1200, 20000)],
@@ -60,7 +60,7 @@ PROPS = {
     ),
     "C05": P(
         technique="Lean 4 proof over the bufio model (all cuts, all chunkings) + fault enumeration by differential correspondence",
-        level_text="Proof at the message level (cut_never_complete): the transport ends — EOF, error or timeout, alone or together with the last bytes — at ANY byte offset strictly inside a conformant message of any fragmentation with interleaved controls, for any chunking, buffer size and read size: the message is never reported complete; NextReader fails or the message reader fails with a non-EOF error after delivering only a prefix of the payload (on reachable states; the 1000th-call panic is explicit otherwise); a message that did arrive whole is reported complete and byte-identical; the same for COMPRESSED messages through the model of flateReadWrapper (compressed_cut_never_complete: for every behaviour of compress/flate — read requests of any sizes, the end of the deflate stream reported however early — and every drain size, a compressed message whose last frame has not arrived is not reported complete; finding F10 as a theorem; compressed_whole_complete for the converse). Proof at the source level: a header or skipped remainder that did not fully arrive is an error (EOF mapped to 1006), never a short result; the terminal error repeats. Tie/fault enumeration: random streams cut at random and boundary offsets with EOF / error / timeout, error alone or together with the last bytes, all chunkings, explicit read sizes; model predicts every result incl. bufio pass-through effects; oracle: a message reported complete lies wholly before the cut and is byte-identical; errors are permanent; zcut: compressed messages of every deflate shape, cut anywhere, with the decompressor's read requests observed through a tap and replayed by the model (zr lines).",
+        level_text="Proof at the message level (cut_never_complete): the transport ends — EOF, error or timeout, alone or together with the last bytes — at ANY byte offset strictly inside a conformant message of any fragmentation with interleaved controls, for any chunking, buffer size and read size: the message is never reported complete; NextReader fails or the message reader fails with a non-EOF error after delivering only a prefix of the payload (on reachable states; the 1000th-call panic is explicit otherwise); a message that did arrive whole is reported complete and byte-identical; cut_never_complete_any_limit: the same whatever read limit is in force (the failure may then be ErrReadLimit, never completion); the same for COMPRESSED messages through the model of flateReadWrapper (compressed_cut_never_complete: for every behaviour of compress/flate — read requests of any sizes, the end of the deflate stream reported however early — and every drain size, a compressed message whose last frame has not arrived is not reported complete; finding F10 as a theorem; compressed_whole_complete for the converse). Proof at the source level: a header or skipped remainder that did not fully arrive is an error (EOF mapped to 1006), never a short result; the terminal error repeats. Tie/fault enumeration: random streams cut at random and boundary offsets with EOF / error / timeout, error alone or together with the last bytes, all chunkings, explicit read sizes; model predicts every result incl. bufio pass-through effects; oracle: a message reported complete lies wholly before the cut and is byte-identical; errors are permanent; zcut: compressed messages of every deflate shape, cut anywhere, with the decompressor's read requests observed through a tap and replayed by the model (zr lines).",
         level_note="Finding F1 (EOF together with the last bytes of a non-final frame made a truncated message look complete) was repaired (fix: f91fac9); the theorem is about the repaired reader and the rcut stream is its regression sentinel. Compressed messages of every deflate shape (sync-flushed, several blocks, BFINAL) cut at any offset by every fault kind are judged by the independent oracle of stream zcut with the real compress/flate, which found F10 (repaired, fix: 9fddae9); since then the wrapper around the decompressor is modelled (zReadToEnd) with compress/flate's read requests, its verdict and the drain size as environment answers observed through the hook VerifTapDecompression; inflate itself stays environment.",
         lean=["WS.Props.C05"],
         streams=[("rcut", 800, 20000), ("zcut", 600, 20000)],
@@ -68,7 +68,7 @@ PROPS = {
     ),
     "C06": P(
         technique="Lean 4 theorems over the reader model (running sum with int64 wrap-around, all sources) + differential correspondence around the limit",
-        level_text="Proof: the frame whose header makes the running sum exceed the limit is refused before any payload byte is consumed, with ErrReadLimit and a 1009 close frame; a message whose data frames sum to at most L is read in full whatever its fragmentation, interleaved controls and read sizes (limit_admits, from C03.read_message); a new text/binary frame restarts the sum, so what the application did with earlier messages does not matter (regression sentinel for F2); a top-bit length is refused the same way with a 1009 (F3); limit_refuses_claimed: for EVERY length a header can claim — 7-bit, 16-bit and 64-bit encodings, minimal or not, any value below 2^63, either role, first frame or continuation, any running sum including sums that leave the int64 range (wrap64) — the frame that takes the message over the limit in the mathematical integers is refused as soon as its header has arrived, nothing of the payload needing to be there; the same at the API for NextReader (idle) and for Read inside a fragmented message (the continuation that takes the running sum over the limit), and an accepted frame adds exactly its length to the sum. Tie: limits chosen at message size -1/0/+1, fragmentations crossing at any frame, abandon points, huge and negative 64-bit lengths (rfuzz), on the real package and the model.",
+        level_text="Proof (limit_history_independent, the property's first sentence as one theorem): with a limit L > 0, after ANY NUMBER of earlier messages within the limit, each opened and read with reads of any sizes (none, some, all, beyond the end), a message of at most L payload bytes is read in full, whatever the fragmentations, control frames, role, chunking and buffer size; (over_limit_never_complete, the second sentence) a message above the limit is never read in full: NextReader or a Read fails with ErrReadLimit and what was delivered before is a prefix of at most L bytes. Frame level: the frame whose header makes the running sum exceed the limit is refused before any payload byte is consumed, with ErrReadLimit and a 1009 close frame; a message whose data frames sum to at most L is read in full whatever its fragmentation, interleaved controls and read sizes (limit_admits, from C03.read_message); a new text/binary frame restarts the sum, so what the application did with earlier messages does not matter (regression sentinel for F2); a top-bit length is refused the same way with a 1009 (F3); limit_refuses_claimed: for EVERY length a header can claim — 7-bit, 16-bit and 64-bit encodings, minimal or not, any value below 2^63, either role, first frame or continuation, any running sum including sums that leave the int64 range (wrap64) — the frame that takes the message over the limit in the mathematical integers is refused as soon as its header has arrived, nothing of the payload needing to be there; the same at the API for NextReader (idle) and for Read inside a fragmented message (the continuation that takes the running sum over the limit), and an accepted frame adds exactly its length to the sum. Tie: limits chosen at message size -1/0/+1, fragmentations crossing at any frame, abandon points, huge and negative 64-bit lengths (rfuzz), on the real package and the model.",
         level_note="Memory: the model has no allocator; the claim rests on the structure (Peek of at most 125 bytes, Read into the caller's buffer, Discard in 8 KiB steps) pinned by the make/index site inventory, plus a TotalAlloc bound measured in the fuzz stream.",
         lean=["WS.Props.C06"],
         streams=[("rlimit", 900, 16000), ("rfuzz", 400, 8000)],
@@ -76,7 +76,7 @@ PROPS = {
     ),
     "C07": P(
         technique="Lean 4 theorems over total, input-bounded models + translator inventory of index/slice/make sites + differential fuzz correspondence",
-        level_text="Proof for the modelled code: the only panic the read path can produce is the documented one at the 1000th call on a failed connection; header reads and frame skips are bounded by what is asked for / present and end with an error on a short stream (no waiting for a claimed length); the models of the reader loops and of the header parsers are total functions whose recursion is bounded by the input length (accepted by Lean's termination checker). Go-level panics cannot arise in the model: they are covered by the regenerated inventory of every index / slice / make / type-assertion site in the functions fed by network input (a new or changed site breaks the tie) and by fuzz correspondence: mutated and random frame streams into connections of both roles with the model predicting every outcome exactly, random and mutated replies to Dial and to CONNECT, junk header values through the exported helpers, all under recover(), a watchdog and a TotalAlloc bound.",
+        level_text="Proof for the modelled code: the only panic the read path can produce is the documented one at the 1000th call on a failed connection; header reads and frame skips are bounded by what is asked for / present and end with an error on a short stream (no waiting for a claimed length); the models of the reader loops and of the header parsers are total functions whose recursion is bounded by the input length (accepted by Lean's termination checker), and for EVERY input — conformant or garbage, complete or cut — that bound is never reached: an accepted frame has consumed at least its two header bytes (advanceFrame_ok_consumes), so NextReader's loop and the Read loop end with a message, data, end-of-message or a latched error and any larger fuel gives the same result (nextReaderLoop_no_hang, nextReader_total, mrRead_total, nextReaderLoop_fuel, mrReadLoop_fuel); the loops of tokenListContainsValue, parseExtensions and the base64 walk consume at least one byte per iteration (lineContains_any_fuel, parseExtensions_any_fuel, paramsAux_fuel, b64DecodedLen_any_fuel). Go-level panics cannot arise in the model: they are covered by the regenerated inventory of every index / slice / make / type-assertion site in the functions fed by network input (a new or changed site breaks the tie) and by fuzz correspondence: mutated and random frame streams into connections of both roles with the model predicting every outcome exactly, random and mutated replies to Dial and to CONNECT, junk header values through the exported helpers, all under recover(), a watchdog and a TotalAlloc bound.",
         level_note="Partial: robustness of net/http, net/url, bufio, compress/flate and encoding/base64 internals is assumed; allocation is bounded by measurement in the fuzz streams plus the make-site inventory, not by a theorem about the Go allocator. Fuzzing supports the tie and the search for failing inputs; it is not the proof.",
         lean=["WS.Props.C07"],
         streams=[("rfuzz", 1200, 30000), ("dfuzz", 200, 4000), ("unit", 400, 8000), ("srv", 300, 6000), ("cli", 300, 6000), ("rviol", 300, 6000), ("origin", 300, 6000), ("zcut", 400, 8000), ("hsfault", 9, 9)],
